@@ -515,10 +515,25 @@ func safely(f func() error) (err error) {
 
 // unpackStream unpacks n messages from the byte stream through a chunking policy with one protocol object.
 func unpackStream(p protos.P, stream []byte, n int, policy func() int) (out []wire.Spec, sizes []uint32, err error, cleanEOF bool) {
+	return unpackStreamR(p, stream, n, policy, false)
+}
+
+// unpackStreamR: with reuse, ONE message object receives every frame and is Reset in between - as a
+// session's pooled input message is.
+func unpackStreamR(p protos.P, stream []byte, n int, policy func() int, reuse bool) (out []wire.Spec, sizes []uint32, err error, cleanEOF bool) {
 	cr := &wire.ChunkReader{B: stream, Policy: policy}
 	pr := p.Func(wire.RW{Reader: cr, Writer: io.Discard})
+	var shared erpc.Message
 	for i := 0; i < n; i++ {
 		m := wire.NewReceiver(p)
+		if reuse {
+			if shared == nil {
+				shared = m
+			} else {
+				wire.ResetReceiver(shared, p)
+			}
+			m = shared
+		}
 		if e := safely(func() error { return pr.Unpack(m) }); e != nil {
 			return out, sizes, fmt.Errorf("frame %d: %v", i, e), false
 		}
@@ -597,8 +612,9 @@ func checkStream(p protos.P, specs []wire.Spec, r *core.Rand) (fs []*failure) {
 		}
 	}
 	stream := bytes.Join(pk.frames, nil)
-	for _, pol := range wire.PolicyNames {
-		out, sizes, uerr, clean := unpackStream(p, stream, len(specs), wire.Policy(pol, r))
+	for pi, pol := range append(append([]string(nil), wire.PolicyNames...), "whole+reused", "rand+reused") {
+		reuse := pi >= len(wire.PolicyNames)
+		out, sizes, uerr, clean := unpackStreamR(p, stream, len(specs), wire.Policy(strings.TrimSuffix(pol, "+reused"), r), reuse)
 		if uerr != nil {
 			return []*failure{{"desync", pol + ": " + uerr.Error()}}
 		}
@@ -760,7 +776,7 @@ func main() {
 				for i := 0; i < n; i++ {
 					s := baseline(p, r)
 					// only classes that round-trip individually on every protocol, so that a stream failure means lost sync
-					for _, fc := range [][2]string{{"seq", "rand"}, {"meta", "ascii"}, {"body", "ascii"}, {"mtype", "reply"}} {
+					for _, fc := range [][2]string{{"seq", "rand"}, {"meta", "ascii"}, {"meta", "emptyval"}, {"body", "ascii"}, {"mtype", "reply"}} {
 						if r.Intn(2) == 0 {
 							t := s.Clone()
 							if vary(&t, p, fc[0], fc[1], g) {
